@@ -205,6 +205,7 @@ def parseCounters (sizeBytes : Nat) (boc : Bytes) : M (Counters × Bytes) := do
   -- uint(len(boc)) < totCellsSize
   if !(hasAtLeast boc totCellsSize) then fail "not enough bytes for cells data" else
   if cellsCount > totCellsSize / 2 then fail "too many cells for this amount of cells data" else
+  if rootsCount < 1 then fail "boc must have at least one root" else
   pure (⟨offsetBytes, cellsCount, rootsCount, absentNum, totCellsSize⟩, boc)
 
 open M in
